@@ -890,10 +890,48 @@ fn c15_try(rep: &mut Report, case: &str, name: &str, orig: &PDU, e: &[u8], mask:
     }
 }
 
+/// The other half of the property: an unaltered CRC-carrying PDU is always accepted - for EVERY combination of
+/// the header flags and id widths (shard j of 16) and every payload kind.
+fn c15_accept_unit(rep: &mut Report, seed: u64, shard: usize, only: Option<&str>) {
+    let case = format!("C15/{}/accept/{}", seed, shard);
+    if let Some(o) = only {
+        if o != case {
+            return;
+        }
+    }
+    let mut rng = Rng::derive(seed, 1515, shard as u64);
+    let mut i = shard as u64;
+    while i < N_HEADER_COMBOS {
+        let mut bits = header_bits(i);
+        i += 16;
+        if bits.version != 1 {
+            continue;
+        }
+        bits.crc = true;
+        for kind in 0..N_OP_KINDS {
+            let pdu = gen_pdu(&mut rng, bits, kind, 40);
+            let e = pdu.clone().encode();
+            rep.eval();
+            let mut s = e.as_slice();
+            match PDU::decode(&mut s) {
+                Ok(p) if p == pdu => rep.count("unaltered-accepted:all-header-combinations"),
+                other => {
+                    let what = format!("file_data={} to_sender={} unack={} large={} seg_ctrl={} seg_meta={}", bits.file_data, bits.to_sender, bits.unack, bits.large, bits.seg_ctrl, bits.seg_meta);
+                    rep.violate("crc-rejects-valid", format!("header-flags {}", what), &case, format!("unaltered PDU (id width {}, seq width {}, {}) with CRC not accepted as itself: {}; bytes {}", bits.id_w, bits.seq_w, what, short(&format!("{:?}", other)), hex(&e)))
+                }
+            }
+        }
+    }
+    rep.nontrivial(fnv_mix(0xACCE97, shard as u64));
+}
+
 fn c15_unit(rep: &mut Report, seed: u64, tier: &str, unit: usize, only: Option<&str>) {
     // unit = (corpus index, layer)
     let mut rng = Rng::derive(seed, 15, 0);
     let corp = corpus(&mut rng, true);
+    if unit >= corp.len() * 4 {
+        return c15_accept_unit(rep, seed, unit - corp.len() * 4, only);
+    }
     let ci = unit % corp.len();
     let layer = unit / corp.len();
     let (name, pdu) = &corp[ci];
@@ -993,16 +1031,16 @@ pub fn run_c15(tier: &str, seed: u64, replay: Option<&str>) -> (Meta, Report) {
     let meta = Meta {
         property: "C15",
         level: "fault_enumeration",
-        rule: format!("corpus of {} CRC-carrying PDUs (9 payload kinds x small/large x 4 id/seq width combinations, seeded content); per PDU four layers: every single bit >= bit 32; every pair of bits (whole PDU when <= 64 bytes, else within a 128-bit window); every burst of length 2..16 with both end bits set at every position (interior patterns complete up to length {} and 64 sampled per position above); sampled weight-3 patterns. distinct_nontrivial = (PDU, layer) units completed", ncorp, if tier == "thorough" { 13 } else { 9 }),
+        rule: format!("corpus of {} CRC-carrying PDUs (9 payload kinds x small/large x 4 id/seq width combinations, seeded content); per PDU four layers: every single bit >= bit 32; every pair of bits (whole PDU when <= 64 bytes, else within a 128-bit window); every burst of length 2..16 with both end bits set at every position (interior patterns complete up to length {} and 64 sampled per position above); sampled weight-3 patterns; plus: an unaltered CRC-carrying PDU is accepted as itself for every combination of header flags (direction, mode, large, segmentation control, segment metadata, file data / directive) x 16 id/sequence width pairs x 7 directive kinds. distinct_nontrivial = (PDU, layer) units completed", ncorp, if tier == "thorough" { 13 } else { 9 }),
         exhaustive: true,
         assumptions: vec![
             "bits 0..31 (the four fixed header octets: flags, length, id widths) are not altered, as in the statement".into(),
             "a corrupted PDU that decodes to a value equal to the original counts as accepted-as-original (only spare bits changed)".into(),
         ],
-        require: vec![("unaltered-accepted".into(), ncorp as u64), ("rejected".into(), 1000)],
+        require: vec![("unaltered-accepted".into(), ncorp as u64), ("rejected".into(), 1000), ("unaltered-accepted:all-header-combinations".into(), 10_000)],
         extra: vec![("corpus".into(), J::A(corp.iter().take(12).map(|(n, p)| J::obj().set("name", J::s(n)).set("hex", J::s(hex(&p.clone().encode())))).collect()))],
     };
-    let units = ncorp * 4;
+    let units = ncorp * 4 + 16;
     let tier_s = tier.to_string();
     let only = replay.map(|s| s.to_string());
     let reps = run_pool(
